@@ -88,9 +88,9 @@ _OPT_NAME = {'id': 'yaql.iterableDicts', 'tl': 'yaql.convertTuplesToLists', 'sl'
 # (options of the base engine, the deltas of the derived members)
 FAMILY_DEFS = [
     (dict(), [dict(tl=False), dict(id=True), dict(sl=False), dict(ci=False), dict(id=True, tl=False, sl=False),
-              dict(ci=False, tl=False), dict(ci=False, id=True, sl=False)]),
+              dict(ci=False, tl=False), dict(ci=False, id=True, sl=False), dict(lim=3), dict(lim=5, tl=False)]),
     (dict(id=True, tl=False, sl=False), [dict(id=False), dict(tl=True), dict(sl=True), dict(id=False, tl=True, sl=True),
-                                         dict(ci=False), dict(ci=False, tl=True, id=False)]),
+                                         dict(ci=False), dict(ci=False, tl=True, id=False), dict(lim=4)]),
 ]
 HOWS = ['copy', 'copy', 'fresh', 'percall']
 
